@@ -453,13 +453,17 @@ fn conv_bc<T: Flt, D: Dimension>(bc: &Bc<T>) -> Option<BoundaryCondition<T, D>> 
 }
 
 macro_rules! def_build1 {
-    ($name:ident, $obj:ty) => {
+    ($name:ident, $gname:ident, $obj:ty) => {
         /// Build an owned 1-D interpolator. `x = None` uses the builder's default index axis.
         /// Returns None when `data` (or an Individual boundary array) cannot be expressed in the
         /// static dimension type `dd` (not a property of the crate, just not a well-typed call).
-        pub fn $name<T: Flt>(
+        pub fn $name<T: Flt>(x: Option<Array1<T>>, data: ArrayD<T>, dd: DDim, strat: &Strat1<T>) -> Option<Result<Box<$obj>, BuilderError>> {
+            $gname::<T, ndarray::OwnedRepr<T>>(x, data, dd, strat)
+        }
+        /// the same for data in any storage (owned, shared, `'static` view)
+        pub fn $gname<T: Flt, S: ndarray::Data<Elem = T> + Send + Sync + 'static>(
             x: Option<Array1<T>>,
-            data: ArrayD<T>,
+            data: ndarray::ArrayBase<S, IxDyn>,
             dd: DDim,
             strat: &Strat1<T>,
         ) -> Option<Result<Box<$obj>, BuilderError>> {
@@ -469,9 +473,17 @@ macro_rules! def_build1 {
                     match strat {
                         Strat1::Linear { extrapolate } => {
                             // the way the builder is obtained and the order of its calls are varied (a function of the data content)
-                            let s = Linear::new().extrapolate(*extrapolate);
                             let h = crate::common::splitmix(data.iter().next().map(|v| v.key()).unwrap_or(0) ^ (data.len() as u64) << 7);
+                            let s = if h % 3 == 0 { Linear::new().extrapolate(!*extrapolate).extrapolate(*extrapolate) } else { Linear::new().extrapolate(*extrapolate) };
                             Some(match (x, h % 5) {
+                                // an axis / strategy that is set and then replaced does not matter
+                                (Some(x), 3) => Interp1DBuilder::new(data)
+                                    .x(Array1::from_vec(vec![T::of(3.0), T::of(2.0), T::of(2.0)]))
+                                    .strategy(Linear::new().extrapolate(!*extrapolate))
+                                    .x(x)
+                                    .strategy(s)
+                                    .build()
+                                    .map(|i| Box::new(i) as Box<$obj>),
                                 (Some(x), 0) => Interp1D::builder(data).x(x).strategy(s).build().map(|i| Box::new(i) as Box<$obj>),
                                 (Some(x), 1) => Interp1DBuilder::new(data).x(x).strategy(s).build().map(|i| Box::new(i) as Box<$obj>),
                                 (Some(x), 2) if !*extrapolate => Interp1D::builder(data).x(x).build().map(|i| Box::new(i) as Box<$obj>),
@@ -484,13 +496,18 @@ macro_rules! def_build1 {
                         Strat1::Spline { extrapolate, bc } => {
                             // the order of the strategy-builder calls is varied (a function of the data content)
                             let bcv = conv_bc::<T, $D>(bc)?;
-                            let s = if builder_order(data.iter().next().map(|v| v.key()).unwrap_or(0) ^ data.len() as u64) {
-                                CubicSpline::<T, $D>::new().extrapolate(*extrapolate).boundary(bcv)
-                            } else {
-                                CubicSpline::<T, $D>::new().boundary(bcv).extrapolate(*extrapolate)
+                            // ... and so are repeated setter calls: the last call wins, whatever was set before
+                            let e = *extrapolate;
+                            let s = match crate::common::splitmix(data.iter().next().map(|v| v.key()).unwrap_or(0) ^ data.len() as u64) % 7 {
+                                0 | 1 => CubicSpline::<T, $D>::new().extrapolate(e).boundary(bcv),
+                                2 | 3 => CubicSpline::<T, $D>::new().boundary(bcv).extrapolate(e),
+                                4 => CubicSpline::<T, $D>::new().boundary(BoundaryCondition::Periodic).extrapolate(e).boundary(bcv),
+                                5 => CubicSpline::<T, $D>::new().extrapolate(!e).boundary(BoundaryCondition::Clamped).extrapolate(e).boundary(bcv),
+                                _ => CubicSpline::<T, $D>::new().extrapolate(true).boundary(BoundaryCondition::Periodic).boundary(bcv).extrapolate(e),
                             };
                             let h = crate::common::splitmix(data.len() as u64 ^ 0xB01D);
-                            Some(match (x, h % 3) {
+                            Some(match (x, h % 4) {
+                                (Some(x), 3) => Interp1DBuilder::new(data).x(Array1::from_vec(vec![T::of(1.0), T::nan()])).strategy(Linear::new()).strategy(s).x(x).build().map(|i| Box::new(i) as Box<$obj>),
                                 (Some(x), 0) => Interp1D::builder(data).x(x).strategy(s).build().map(|i| Box::new(i) as Box<$obj>),
                                 (Some(x), 1) => Interp1DBuilder::new(data).x(x).strategy(s).build().map(|i| Box::new(i) as Box<$obj>),
                                 (Some(x), _) => Interp1DBuilder::new(data).strategy(s).x(x).build().map(|i| Box::new(i) as Box<$obj>),
@@ -505,15 +522,69 @@ macro_rules! def_build1 {
         }
     };
 }
-def_build1!(build1, dyn I1<T>);
-def_build1!(build1_sync, dyn I1<T> + Send + Sync);
+def_build1!(build1, build1_any, dyn I1<T>);
+def_build1!(build1_sync, build1_sync_any, dyn I1<T> + Send + Sync);
+
+/// An interpolator built on `'static` views into heap blocks it keeps alive itself (field order = drop order:
+/// the interpolator goes first).
+pub struct Held<T: Flt> {
+    interp: Box<dyn I1<T>>,
+    _bases: Vec<Box<dyn std::any::Any>>,
+}
+
+impl<T: Flt> I1<T> for Held<T> {
+    fn t_scalar(&self, q: T) -> Option<R<T>> {
+        self.interp.t_scalar(q)
+    }
+    fn t_interp(&self, q: T) -> R<Arr<T>> {
+        self.interp.t_interp(q)
+    }
+    fn t_interp_into(&self, q: T, buf: ArrayViewMutD<'_, T>) -> Option<R<()>> {
+        self.interp.t_interp_into(q, buf)
+    }
+    fn t_array(&self, q: ArrayViewD<'_, T>, qd: QDim) -> Option<R<Arr<T>>> {
+        self.interp.t_array(q, qd)
+    }
+    fn t_array_owned(&self, q: ArrayD<T>, qd: QDim) -> Option<R<Arr<T>>> {
+        self.interp.t_array_owned(q, qd)
+    }
+    fn t_array_into(&self, q: ArrayViewD<'_, T>, qd: QDim, buf: ArrayViewMutD<'_, T>) -> Option<R<()>> {
+        self.interp.t_array_into(q, qd, buf)
+    }
+    fn t_index_point(&self, i: usize) -> (T, Arr<T>) {
+        self.interp.t_index_point(i)
+    }
+    fn t_index_left_of(&self, q: T) -> usize {
+        self.interp.t_index_left_of(q)
+    }
+    fn t_in_range(&self, q: T) -> bool {
+        self.interp.t_in_range(q)
+    }
+}
+
+/// 1-D interpolator whose data is a *broadcast view* (stride 0 along every trailing axis) of `base` (shape
+/// (n, 1, .., 1)) to `shape`: what a user gets from `y.view().insert_axis(..).broadcast(..)`.
+pub fn build1_bcast<T: Flt>(x: Option<Array1<T>>, base: ArrayD<T>, shape: &[usize], dd: DDim, strat: &Strat1<T>) -> Option<Result<Box<dyn I1<T>>, BuilderError>> {
+    let base = Box::new(base);
+    // SAFETY: the view points into the heap block owned by `base`, which `Held` keeps alive (and never mutates or
+    // moves out of its Box) for as long as the interpolator exists; the interpolator is dropped first.
+    let v: ArrayViewD<'static, T> = unsafe { std::mem::transmute::<ArrayViewD<'_, T>, ArrayViewD<'static, T>>(base.broadcast(IxDyn(shape))?) };
+    match build1_any::<T, ndarray::ViewRepr<&'static T>>(x, v, dd, strat)? {
+        Ok(i) => Some(Ok(Box::new(Held { interp: i, _bases: vec![base as Box<dyn std::any::Any>] }) as Box<dyn I1<T>>)),
+        Err(e) => Some(Err(e)),
+    }
+}
 
 macro_rules! def_build2 {
-    ($name:ident, $obj:ty) => {
+    ($name:ident, $gname:ident, $obj:ty) => {
         /// Build an owned 2-D bilinear interpolator. Data dims Ix2..Ix6 / IxDyn.
-        pub fn $name<T: Flt>(
-            x: Option<Array1<T>>,
-            y: Option<Array1<T>>,
+        pub fn $name<T: Flt>(x: Option<Array1<T>>, y: Option<Array1<T>>, data: ArrayD<T>, dd: DDim, extrapolate: bool) -> Option<Result<Box<$obj>, BuilderError>> {
+            $gname::<T, ndarray::OwnedRepr<T>>(x, y, data, dd, extrapolate)
+        }
+        /// the same with the axes in any storage (e.g. shared arrays that alias each other)
+        pub fn $gname<T: Flt, SA: ndarray::Data<Elem = T> + Send + Sync + 'static>(
+            x: Option<ndarray::ArrayBase<SA, ndarray::Ix1>>,
+            y: Option<ndarray::ArrayBase<SA, ndarray::Ix1>>,
             data: ArrayD<T>,
             dd: DDim,
             extrapolate: bool,
@@ -528,6 +599,20 @@ macro_rules! def_build2 {
                         (true, 0) => return Some(Interp2D::builder(data).y(y.unwrap()).x(x.unwrap()).strategy(s).build().map(|i| Box::new(i) as Box<$obj>)),
                         (true, 1) => return Some(Interp2DBuilder::new(data).x(x.unwrap()).strategy(s).y(y.unwrap()).build().map(|i| Box::new(i) as Box<$obj>)),
                         (true, 2) if !extrapolate => return Some(Interp2D::builder(data).x(x.unwrap()).y(y.unwrap()).build().map(|i| Box::new(i) as Box<$obj>)),
+                        // axes / strategy that are set and then replaced do not matter
+                        (true, 3) => {
+                            return Some(
+                                Interp2DBuilder::new(data)
+                                    .y(Array1::from_vec(vec![T::of(1.0), T::nan()]))
+                                    .x(Array1::from_vec(vec![T::of(5.0), T::of(4.0), T::of(4.0)]))
+                                    .strategy(Bilinear::new().extrapolate(!extrapolate))
+                                    .x(x.unwrap())
+                                    .strategy(s)
+                                    .y(y.unwrap())
+                                    .build()
+                                    .map(|i| Box::new(i) as Box<$obj>),
+                            )
+                        }
                         (false, 0) if x.is_none() && y.is_none() && !extrapolate => return Some(Interp2D::builder(data).build().map(|i| Box::new(i) as Box<$obj>)),
                         _ => {}
                     }
@@ -552,8 +637,55 @@ macro_rules! def_build2 {
         }
     };
 }
-def_build2!(build2, dyn I2<T>);
-def_build2!(build2_sync, dyn I2<T> + Send + Sync);
+def_build2!(build2, build2_any, dyn I2<T>);
+def_build2!(build2_sync, build2_sync_any, dyn I2<T> + Send + Sync);
+
+/// Some(aliasing pair) when x and y are equally long (n >= 2) and y[i] == x[2i] (bitwise) wherever 2i < n: then both
+/// can be views of one allocation that start at the same element with the same length and different strides.
+pub fn alias_axes<T: Flt>(x: &[T], y: &[T]) -> Option<(ndarray::ArcArray1<T>, ndarray::ArcArray1<T>)> {
+    let n = x.len();
+    if n < 2 || y.len() != n || !(0..n).all(|i| 2 * i >= n || y[i].key() == x[2 * i].key()) {
+        return None;
+    }
+    let mut buf = vec![x[0]; 2 * n - 1];
+    buf[..n].copy_from_slice(x);
+    for i in 0..n {
+        if 2 * i >= n {
+            buf[2 * i] = y[i];
+        }
+    }
+    Some(aliasing_pair(buf, n))
+}
+
+/// a y axis related to x as in `alias_axes`; behind the shared part it continues strictly increasing (`valid`) or not
+pub fn related_axis<T: Flt>(src: &mut crate::common::Src, x: &[T], valid: bool) -> Vec<T> {
+    let n = x.len();
+    let mut y: Vec<T> = (0..n).map(|i| if 2 * i < n { x[2 * i] } else { x[0] }).collect();
+    let first_free = n.div_ceil(2);
+    for i in first_free..n {
+        let prev = y[i - 1];
+        y[i] = T::of(prev.f() + (1.0 + src.unit()) * (prev.f().abs().max(1.0)) * 0.25);
+    }
+    if !valid && first_free < n {
+        let k = src.usize_in(first_free, n - 1);
+        y[k] = match src.below(3) {
+            0 => y[k - 1],
+            1 => T::of(y[k - 1].f() - 1.0),
+            _ => T::nan(),
+        };
+    }
+    y
+}
+
+/// Two shared arrays over ONE allocation that start at the same element and have the same length `n` but different
+/// strides: the first `n` elements and every second element of `buf` (`buf.len() >= 2n-1`).
+pub fn aliasing_pair<T: Flt>(buf: Vec<T>, n: usize) -> (ndarray::ArcArray1<T>, ndarray::ArcArray1<T>) {
+    assert!(buf.len() >= 2 * n.max(1) - 1);
+    let a = ndarray::ArcArray1::from_vec(buf);
+    let first = a.clone().slice_move(ndarray::s![..n]);
+    let second = a.slice_move(ndarray::s![..2 * n.max(1) - 1;2]);
+    (first, second)
+}
 
 /// Linear interpolator from `new_unchecked` (the caller guarantees valid inputs)
 pub fn build1_unchecked<T: Flt>(x: Array1<T>, data: ArrayD<T>, dd: DDim, extrapolate: bool) -> Option<Box<dyn I1<T>>> {
